@@ -327,7 +327,13 @@ class FunTr:
                 elif is_opt(ot):
                     code = f"(match {other} with None => true | Some _ => false end)"
             elif (base, lt, rt) in self.ctx.cmpops:
-                code = "(" + self.ctx.cmpops[(base, lt, rt)].format(l=l, r=r) + ")"
+                val = self.ctx.cmpops[(base, lt, rt)]
+                if isinstance(val, tuple):        # (template, "result"): a comparison that can raise (bound like a raising call)
+                    code = "(" + val[0].format(l=l, r=r) + ")"
+                    if val[1] == "result":
+                        code = self.hoist(code, B, node)[0]
+                else:
+                    code = "(" + val.format(l=l, r=r) + ")"
             if code is None:
                 self.fail(node, f"comparison {(opn, lt, rt)} on non-integers")
             return f"(negb {code})" if neg else code
@@ -491,10 +497,13 @@ class FunTr:
                 return (f"(cdiv {self.toZ(a, at, e)} {self.toZ(b, bt, e)})", Z)
             if path in c.funcs:
                 coq, argt, rett, monad = c.funcs[path]
-                if monad is not None:
+                if monad is not None and not (monad == "result" and rett is not None):
                     self.fail(e, "monadic callee in expression position")
                 args = [self.expr(a) for a in e.args]
-                return (f"({coq} " + " ".join(self.toZ(s_, t_, e) if t_ in (Z, B) and (not argt or argt[i] == Z) else s_ for i, (s_, t_) in enumerate(args)) + ")", rett)
+                code_ = (f"({coq} " + " ".join(self.toZ(s_, t_, e) if t_ in (Z, B) and (not argt or argt[i] == Z) else s_ for i, (s_, t_) in enumerate(args)) + ")")
+                if monad == "result":
+                    return self.hoist(code_, rett, e)
+                return (code_, rett)
             # math.floor on an int is the identity
             if isinstance(f.value, ast.Name) and f.value.id == "math" and f.attr == "floor" and len(e.args) == 1:
                 s, t = self.expr(e.args[0])
@@ -585,7 +594,7 @@ class FunTr:
         return False
 
     def has_exit(self, stmts):
-        if self.ctx.conservative_exit and any(isinstance(n, (ast.Call, ast.BinOp, ast.UnaryOp, ast.AugAssign))
+        if self.ctx.conservative_exit and any(isinstance(n, (ast.Call, ast.BinOp, ast.UnaryOp, ast.AugAssign, ast.Compare))
                                               for s in stmts for n in ast.walk(s)):
             return True
         return any(isinstance(n, (ast.Return, ast.Raise, ast.Break, ast.Assert)) or self.raising_call(n) or self.list_leaves(n)
